@@ -40,6 +40,11 @@ impl<'de, O: Offset> ListDeserializer<'de, O> {
         if idx + 1 >= self.offsets.len() {
             fail!("Outs of bound access");
         }
+        if let Some(validity) = &self.validity {
+            if !bitset_is_set(validity, idx)? {
+                fail!("Required value is not defined");
+            }
+        }
         Ok(ListItemDeserializer {
             item: self.item.as_ref(),
             start: self.offsets[idx].try_into_usize()?,
